@@ -2,6 +2,7 @@ package main
 
 import (
 	"go/constant"
+	"go/types"
 	"strconv"
 
 	"golang.org/x/tools/go/ssa"
@@ -45,4 +46,25 @@ func paramNamed(fn *ssa.Function, i int) *ssa.Parameter {
 		return fn.Params[i]
 	}
 	return nil
+}
+
+// constValue: the int64 value of a package-level constant.
+func constValue(p *Program, pkgPath, name string) int64 {
+	pk := p.AllPkgs[pkgPath]
+	if pk == nil {
+		fail("package %s not loaded", pkgPath)
+	}
+	o := pk.Types.Scope().Lookup(name)
+	if o == nil {
+		fail("constant %s.%s missing", pkgPath, name)
+	}
+	c, ok := o.(*types.Const)
+	if !ok {
+		fail("%s.%s is not a constant", pkgPath, name)
+	}
+	v, ok := int64FromConst(c.Val())
+	if !ok {
+		fail("%s.%s is not an integer constant", pkgPath, name)
+	}
+	return v
 }
